@@ -37,6 +37,12 @@ CHECKS = {
  "C04": ("exploration", "runtime monitoring: per-sender history oracle (unique ids, self-describing payloads) over seeded typed-channel workloads with failing/cancelled items, buffered and streamed",
          "Held on N seeded channel histories over base, mpsc (either half remote, 1-3 senders), lr and oneshot channels: received values were intact, ordered, duplicate-free prefixes of each sender's successful sends (equality at a clean end), failed and cancelled items were never delivered, item failures stayed non-final on base/lr, nothing was pending at quiescence; sizes straddle max_data_size (helper-thread streaming), chunk size and both max_item_size limits.",
          "encoded size approximated as payload + <48 bytes; mpsc channels may end at an item failure (documented); real helper threads are involved - a stuck run is decided by OS-level quiescence", "DESIGN.md §3 C04", "rig+history"),
+ "C13": ("exploration", "runtime monitoring: model-free differential oracle (mirror and hand-applied event stream vs the observable's own contents) over seeded operation sequences of the whole mutating API",
+         "Held on N seeded (collection, operation sequence, subscription point, mode, locality) cases for all five collection types: at quiescence the mirror (local, remote, re-subscribed) and an independent event applier both equalled the collection, with correct done/complete flags - except the recorded known finding (values mutated inside hash_map retain).",
+         "ground truth is the observable's own Deref contents; sampling of sequences", "DESIGN.md §3 C13", "history/differential"),
+ "C14": ("exploration", "runtime monitoring: prefix-state membership oracle against a never-lagging reference subscription, error-class table, list exactly-once oracle; lag, early drop, size limit and transport cuts injected",
+         "Held on N seeded cases: a mirror that answered Ok at a quiescent checkpoint always presented the current state of the event history; lag, early drop of the collection, an exceeded size limit (through every growing event or the snapshot) and a cut connection were reported with the fitting error and kept being reported; detach() returned a state of the history; list subscribers (1-4, joining any time, slow, local/remote) received every element exactly once in order.",
+         "judged at quiescence only; non-applying crafted events are not driven (not reached)", "DESIGN.md §3 C14", "history/differential"),
 }
 
 NOT_YET = "check not yet implemented in this commit (DESIGN.md §6a gives the order of implementation)"
